@@ -112,14 +112,14 @@ class SigmaModifier(ABC, Generic[T, R]):
         * Handle values of SigmaExpansion objects separately.
         """
         if isinstance(val, SigmaExpansion):  # Handle each SigmaExpansion item separately
-            return [
-                cast(
-                    T,
-                    SigmaExpansion(
-                        [cast(SigmaType, va) for v in val.values for va in self.apply(cast(T, v))]
-                    ),
-                )
-            ]
+            values: list[SigmaType] = []
+            for v in val.values:
+                for va in self.apply(cast(T, v)):
+                    if isinstance(va, SigmaExpansion):  # keep the expansion flat
+                        values.extend(va.values)
+                    else:
+                        values.append(cast(SigmaType, va))
+            return [cast(T, SigmaExpansion(values))]
         else:
             if not self.type_check(val):
                 raise SigmaTypeError(
@@ -236,7 +236,18 @@ class SigmaBase64Modifier(SigmaValueModifier[SigmaString, SigmaString]):
                 "Base64 encoding of strings with wildcards is not allowed",
                 source=self.source,
             )
-        return SigmaString(b64encode(bytes(val)).decode())
+        if val.contains_placeholder():
+            raise SigmaValueError(
+                "Base64 encoding of strings with placeholders is not allowed",
+                source=self.source,
+            )
+        try:
+            payload = bytes(val)
+        except UnicodeError as e:
+            raise SigmaValueError(
+                f"Value can't be encoded as UTF-8: {str(e)}", source=self.source
+            ) from e
+        return SigmaString(b64encode(payload).decode())
 
 
 class SigmaBase64OffsetModifier(SigmaValueModifier[SigmaString, SigmaExpansion]):
@@ -254,7 +265,17 @@ class SigmaBase64OffsetModifier(SigmaValueModifier[SigmaString, SigmaExpansion])
                 "Base64 encoding of strings with wildcards is not allowed",
                 source=self.source,
             )
-        payload = bytes(val)  # offsets depend on the number of bytes, not of characters
+        if val.contains_placeholder():
+            raise SigmaValueError(
+                "Base64 encoding of strings with placeholders is not allowed",
+                source=self.source,
+            )
+        try:
+            payload = bytes(val)  # offsets depend on the number of bytes, not of characters
+        except UnicodeError as e:
+            raise SigmaValueError(
+                f"Value can't be encoded as UTF-8: {str(e)}", source=self.source
+            ) from e
         return SigmaExpansion(
             [
                 SigmaString(
@@ -278,11 +299,15 @@ class SigmaWideModifier(SigmaValueModifier[SigmaString, SigmaString]):
             ):  # put 0x00 after each character by encoding it to utf-16le and decoding it as utf-8
                 try:
                     r.append(item.encode("utf-16le").decode("utf-8"))
-                except UnicodeDecodeError:  # this method only works for ascii characters
+                except UnicodeError:  # this method only works for ascii characters
                     raise SigmaValueError(
                         f"Wide modifier only allowed for ascii strings, input string '{str(val)}' isn't one",
                         source=self.source,
                     )
+            elif isinstance(item, Placeholder):
+                raise SigmaValueError(
+                    "Encoding of strings with placeholders is not allowed", source=self.source
+                )
             else:  # just append special characters without further handling
                 r.append(item)
 
@@ -300,11 +325,15 @@ class SigmaUTF16BEModifier(SigmaValueModifier[SigmaString, SigmaString]):
             if isinstance(item, str):
                 try:
                     r.append(item.encode("utf-16be").decode("utf-8"))
-                except UnicodeDecodeError:
+                except UnicodeError:
                     raise SigmaValueError(
                         f"UTF-16BE modifier only allowed for valid Unicode strings, input string '{str(val)}' isn't one",
                         source=self.source,
                     )
+            elif isinstance(item, Placeholder):
+                raise SigmaValueError(
+                    "Encoding of strings with placeholders is not allowed", source=self.source
+                )
             else:
                 r.append(item)
 
@@ -323,11 +352,15 @@ class SigmaUTF16Modifier(SigmaValueModifier[SigmaString, SigmaString]):
             if isinstance(item, str):
                 try:
                     r.append(item.encode("utf-16le").decode("utf-8"))
-                except UnicodeDecodeError:
+                except UnicodeError:
                     raise SigmaValueError(
                         f"UTF-16 modifier only allowed for valid Unicode strings, input string '{str(val)}' isn't one",
                         source=self.source,
                     )
+            elif isinstance(item, Placeholder):
+                raise SigmaValueError(
+                    "Encoding of strings with placeholders is not allowed", source=self.source
+                )
             else:
                 r.append(item)
 
